@@ -31,8 +31,8 @@ LEVEL = "model_checking"
 
 PT = {k: getattr(PropertyType, k) for k in MC.KINDS}
 BH = {b: getattr(InvalidPropertyBehavior, b) for b in MC.BEHAVIORS}
-STATES = ("absent", "empty", "default", "padded", "nondefault", "nondefault2")
-NONDEFAULT2 = {"WARPS": "16.000=0.000", "BPMS": "0.000=0.000", "STOPS": "1.000=0", "COMBOS": "0.000=1,\n4.000=1", "LABELS": "0.000=song start", "SCROLLS": "0.000=1.0000"}
+STATES = ("absent", "empty", "default", "padded", "padded40", "nondefault", "nondefault2")
+NONDEFAULT2 = {"VERSION": "0.69", "WARPS": "16.000=0.000", "BPMS": "0.000=0.000", "STOPS": "1.000=0", "COMBOS": "0.000=1,\n4.000=1", "LABELS": "0.000=song start", "SCROLLS": "0.000=1.0000"}
 NONDEFAULT = {
     "VERSION": "0.83", "WARPS": "4.000=1.000", "BPMS": "0.000=99.000", "STOPS": "1.000=0.500", "DELAYS": "2.000=0.250", "OFFSET": "0.123",
     "TIMESIGNATURES": "0.000=3=4", "TICKCOUNTS": "0.000=8", "COMBOS": "0.000=2", "SPEEDS": "0.000=2.000=1.000=0", "SCROLLS": "0.000=0.500",
@@ -50,6 +50,8 @@ def value_for(prop, state):
         return d
     if state == "padded":
         return "\n " + d + " \n"
+    if state == "padded40":
+        return " " * 40 + d + "\t" * 40  # trimming has no bound
     if state == "nondefault2":
         return NONDEFAULT2.get(prop, "another value")
     return NONDEFAULT.get(prop, "x.png" if MC.SIMFILE_KIND.get(prop) == MC.FILE_PATH else "nd")
@@ -340,7 +342,8 @@ def explore_shard(acc, shard):
         for p2 in t2:
             if p2 == p1 and level != "mixed":
                 continue
-            for s1, s2 in itertools.product(("empty", "default", "nondefault"), repeat=2):
+            # for VERSION also a value below the split-timing version 0.7 (what the chart may carry does not depend on it)
+            for s1, s2 in itertools.product(("empty", "default", "nondefault") + (("nondefault2",) if p1 == "VERSION" else ()), ("empty", "default", "nondefault")):
                 acc.count("states")
                 for mp in pair_mappings(t1[p1], t2[p2]):
                     case = {"kind": "pair", "level": level, "p1": p1, "s1": s1, "p2": p2, "s2": s2, "mapping": mp}
